@@ -735,6 +735,8 @@ class SchedulingSolver(BaseModelWithJson):
         current_variable_value = None
         print("Incremental optimizer:\n======================")
         three_last_times = []
+        # the number of scopes pushed on the solver, to be popped when the loop ends
+        number_of_pushes = 0
 
         if self._objective._bounds is None:
             bound = None
@@ -815,12 +817,18 @@ class SchedulingSolver(BaseModelWithJson):
                     )
                     break
             self._solver.push()
+            number_of_pushes += 1
             if kind == "min":
                 self.append_z3_assertion(variable < current_variable_value)
                 print(f"\tChecking better value < {current_variable_value}")
             else:
                 self.append_z3_assertion(variable > current_variable_value)
                 print(f"\tChecking better value > {current_variable_value}")
+
+        # remove the bounds pushed while looking for better values: they are not part
+        # of the problem, a later call must see the original constraints only
+        if number_of_pushes > 0:
+            self._solver.pop(number_of_pushes)
 
         print(f"\ttotal number of iterations: {num_iter}")
         if current_variable_value is not None:
